@@ -223,8 +223,8 @@ func run(c *mon.Case) {
 
 func main() {
 	mon.Main(mon.Spec{
-		Prop: "C25",
-		Rule: "case = accepted word (every mnemonic of RV32IMA and RV64IMA, boundary-biased operand fields) together with all of its accepted single-bit neighbours at the same address; non-trivial = word with >=1 neighbour whose behaviour provably differs, distinct by (configuration, word)",
+		Prop:        "C25",
+		Rule:        "case = accepted word (every mnemonic of RV32IMA and RV64IMA, boundary-biased operand fields) together with all of its accepted single-bit neighbours at the same address; non-trivial = word with >=1 neighbour whose behaviour provably differs, distinct by (configuration, word)",
 		Explanation: "oracle: two words whose lifted effects, applied with the reference IR semantics to the same hashed valuations, end in different registers/IP/memory provably behave differently and must not share their text; text must start with the mnemonic; load/store text must end in offset(base) with the decoded offset and base register. Neighbours with equal results on all valuations are not judged.",
 		Assumptions: []string{"refir evaluator", "behaviour difference is established on 6 valuations (sound: equal results are never reported)"},
 		Cases: func(t string) int {
